@@ -181,7 +181,11 @@ def c02(report, rng, tier, findings):
         nv = rng.choice((2, 2, 3, 3, 4)) if tier != 'quick' else rng.choice((2, 2, 3))
         cfg = gen.Cfg(n_vars=(nv, nv), n_objs=(2, 4 if nv <= 3 else 3), depth=2 if nv >= 3 else 3,
                       select_terms=0.2, preds=True, select_all=0.35, single_top=0.45)
-        cases.append(gen.gen_case(rng, cfg, f'c{i}'))
+        case = gen.gen_case(rng, cfg, f'c{i}')
+        if rng.random() < 0.12:
+            gen.apply_or_template(rng, cfg, case)
+            report.count('template_disjunction_binds_unselected_variable')
+        cases.append(case)
     report.rule = ("random queries over 2-4 variables (30% sharing one domain list: self-joins), conditions over random "
                    "variable subsets, 1..n variables selected in random order, attribute expressions among the selected; "
                    "rows compared as a set (as a multiset when every variable is selected) with the brute-force product "
